@@ -199,7 +199,9 @@ def api_call(rnd, pool=()):
     if k == 'csscombine':
         enc = rnd.choice(['utf-8', 'ascii', 'no-such-enc'])
         from css_parser.script import csscombine
-        return ('csscombine(target=%s)' % enc, lambda: csscombine(cssText=TEXTS['good'], href='http://h/s.css', targetencoding=enc))
+        mini, resv = rnd.random() < 0.5, rnd.random() < 0.5
+        return ('csscombine(target=%s, minify=%s, resolveVariables=%s)' % (enc, mini, resv),
+                lambda: csscombine(cssText=TEXTS['good'], href='http://h/s.css', targetencoding=enc, minify=mini, resolveVariables=resv))
     if k == 'value':
         return ('PropertyValue(%r)' % s, lambda: cp.css.PropertyValue(s))
     if k == 'import-raise':
